@@ -8,6 +8,7 @@
 #include <map>
 #include <iostream>
 #include <sstream>
+#include <stdexcept>
 #include <nfl.hpp>
 typedef unsigned long long ull;
 typedef nfl::poly_p<uint32_t, 8, 1> P;
@@ -50,6 +51,16 @@ int main() {
       else if (op == "add") { is >> h >> g >> k; *s[h] = *s[g] + *s[k]; }
       else if (op == "mul") { is >> h >> g >> k; *s[h] = *s[g] * *s[k]; }
       else if (op == "cmp") { is >> h >> g; os << " eq=" << ((*s[h] == *s[g]) ? 1 : 0) << ",ne=" << ((*s[h] != *s[g]) ? 1 : 0); }
+      else if (op == "setbad") {      // an overwrite that throws (list longer than the degree but not degree*moduli): value must survive
+        is >> h; std::vector<uint32_t> vals(11, 9u);
+        try { s[h]->set(vals.begin(), vals.end()); os << " NOTHROW"; } catch (std::runtime_error const&) {}
+      }
+      else if (op == "nubad") {       // bounded sampler with a bound above the modulus: throws
+        is >> h; try { s[h]->set(nfl::non_uniform(4000000000ULL)); os << " NOTHROW"; } catch (std::runtime_error const&) {}
+      }
+      else if (op == "deserbad") {    // deserialisation from a stream holding only 6 bytes: first word and a half overwritten, rest kept
+        is >> h; std::string six("\x11\x22\x33\x44\x55\x66", 6); std::istringstream st(six); s[h]->deserialize_manually(st);
+      }
       else if (op == "destroy") { is >> h; delete s[h]; s[h] = 0; }
       else { os << " badop"; }
       snapshot(s, os);
